@@ -155,6 +155,33 @@ def run_shard(spec, rec):
         res["Quantity.is_compatible_with(Quantity)"] = outcome(
             lambda: qa.is_compatible_with(Q(one, ubu)), pint)[1]
         res["ureg.is_compatible_with"] = outcome(lambda: ureg.is_compatible_with(qa, ubu), pint)[1]
+        # the same predicates given STRINGS (they must read them like Quantity.to does)
+        res["Quantity.is_compatible_with(str)"] = outcome(lambda: qa.is_compatible_with(sb), pint)[1]
+        res["Unit.is_compatible_with(str)"] = outcome(lambda: qa.units.is_compatible_with(sb), pint)[1]
+        if spec.get("cfg") != "autoreduce":
+            # (a string FIRST argument is evaluated as an expression: under auto_reduce_dimensions that
+            # multiplication meets the float-exponent rounding recorded as finding T3 of C15 / C03)
+            res["ureg.is_compatible_with(str, str)"] = outcome(lambda: ureg.is_compatible_with(sa, sb), pint)[1]
+        if nit is not float and isinstance(a, dict) and isinstance(b, dict) and rng.random() < 0.5 \
+                and spec.get("cfg") != "autoreduce" \
+                and all(v == int(v) and v != 0 for d in (a, b) for v in d.values()):
+            # decimal (non-dyadic) exponents written in the strings: every exponent divided by ten, so
+            # the relation is unchanged; exact registries read 0.1 as 1/10
+            def tenth(d):
+                return " * ".join(f"{k} ** {'-' if v < 0 else ''}{abs(int(v)) // 10}.{abs(int(v)) % 10}" for k, v in d.items())
+            ta, tb = tenth(a), tenth(b)
+            conv = outcome(lambda: ureg.convert(one, ta, tb), pint)[0]
+            if conv in ("ok", "dimerr"):
+                rec.count("decimal_exponent_string_predicates")
+                for k, fn in (("Quantity.is_compatible_with(str)", lambda: Q(one, ta).is_compatible_with(tb)),
+                              ("Unit.is_compatible_with(str)", lambda: ureg.Unit(ta).is_compatible_with(tb)),
+                              ("ureg.is_compatible_with(str, str)", lambda: ureg.is_compatible_with(ta, tb))):
+                    v = outcome(fn, pint)[1]
+                    rec.count("predicate_evals")
+                    if v is not (conv == "ok") or (conv == "ok") is not same:
+                        rec.violation("predicate-disagrees", {"predicate": k, "a": ta, "b": tb, "conversion": conv,
+                                                              "model_same_dimension": same, "got": v},
+                                      predicate=k, workload=tag, exponents="decimal-in-string")
         if nit is float and rng.random() < 0.3:
             # the predicates must follow the object's CURRENT units: in-place arithmetic on an array
             # quantity replaces the units after its dimensionality has been read once
